@@ -898,6 +898,78 @@ impl QueryEngine {
     }
 }
 
+/// Verification hook: plain-data snapshot of one lookup query (peer ids only).
+#[cfg(feature = "verif")]
+#[derive(Debug, Default, Clone)]
+pub struct VerifQueryDump {
+    /// Candidates in `BTreeMap` (distance) order.
+    pub candidates: Vec<PeerId>,
+    /// Pending peers (unordered).
+    pub pending: Vec<PeerId>,
+    /// Queried peers (unordered).
+    pub queried: Vec<PeerId>,
+    /// `FIND_NODE` responses in `BTreeMap` (distance) order.
+    pub responses: Vec<PeerId>,
+    /// `FindNodeContext::pending_responses`.
+    pub pending_responses: usize,
+    /// `GetRecordContext::found_records`.
+    pub found_records: usize,
+    /// Peers of the records queued for `GetRecordPartialResult`, in queue order.
+    pub queued_records: Vec<PeerId>,
+    /// `GetProvidersContext::found_providers` (peer ids, in order).
+    pub found_providers: Vec<PeerId>,
+}
+
+#[cfg(feature = "verif")]
+impl QueryEngine {
+    /// Verification hook: snapshot of a lookup query, `None` if the query does not exist
+    /// or is not a lookup.
+    pub fn verif_dump(&self, query: QueryId) -> Option<VerifQueryDump> {
+        fn find_node<T: Clone + Into<Vec<u8>>>(c: &FindNodeContext<T>) -> VerifQueryDump {
+            VerifQueryDump {
+                candidates: c.candidates.values().map(|p| p.peer).collect(),
+                pending: c.pending.keys().copied().collect(),
+                queried: c.queried.iter().copied().collect(),
+                responses: c.responses.values().map(|p| p.peer).collect(),
+                pending_responses: c.verif_pending_responses(),
+                ..Default::default()
+            }
+        }
+        match self.queries.get(&query)? {
+            QueryType::FindNode { context } => Some(find_node(context)),
+            QueryType::PutRecord { context, .. } => Some(find_node(context)),
+            QueryType::AddProvider { context, .. } => Some(find_node(context)),
+            QueryType::GetRecord { context } => Some(VerifQueryDump {
+                candidates: context.candidates.values().map(|p| p.peer).collect(),
+                pending: context.pending.keys().copied().collect(),
+                queried: context.queried.iter().copied().collect(),
+                found_records: context.found_records,
+                queued_records: context.records.iter().map(|r| r.peer).collect(),
+                ..Default::default()
+            }),
+            QueryType::GetProviders { context } => Some(VerifQueryDump {
+                candidates: context.candidates.values().map(|p| p.peer).collect(),
+                pending: context.pending.keys().copied().collect(),
+                queried: context.queried.iter().copied().collect(),
+                found_providers: context.found_providers.iter().map(|p| p.peer).collect(),
+                ..Default::default()
+            }),
+            _ => None,
+        }
+    }
+
+    /// Verification hook: shorten the peer timeout of a `FIND_NODE`-based query.
+    pub fn verif_set_peer_timeout(&mut self, query: QueryId, timeout: std::time::Duration) {
+        match self.queries.get_mut(&query) {
+            Some(QueryType::FindNode { context }) => context.verif_set_peer_timeout(timeout),
+            Some(QueryType::PutRecord { context, .. }) => context.verif_set_peer_timeout(timeout),
+            Some(QueryType::AddProvider { context, .. }) =>
+                context.verif_set_peer_timeout(timeout),
+            _ => {}
+        }
+    }
+}
+
 #[cfg(test)]
 mod tests {
     use multihash::Multihash;
